@@ -301,8 +301,8 @@ double Interpolation::Local_Minimum(double x_1, double x_2)
 	int i_1		   = Locate(x_1);
 	int i_2		   = Locate(x_2);
 	// The knots inside [x_1,x_2]: i_1+1,...,i_2, and the end knots if a limit lies in the extrapolation zone.
-	int first = (x_1 < domain[0]) ? i_1 : i_1 + 1;
-	int last  = (x_2 > domain[1]) ? i_2 + 1 : i_2;
+	int first = (x_1 < domain[0] && x_2 >= domain[0]) ? i_1 : i_1 + 1;
+	int last  = (x_2 > domain[1] && x_1 <= domain[1]) ? i_2 + 1 : i_2;
 	if(first > last)
 		return std::min(f_left, f_right);
 	else
@@ -322,8 +322,8 @@ double Interpolation::Local_Maximum(double x_1, double x_2)
 	int i_1		   = Locate(x_1);
 	int i_2		   = Locate(x_2);
 	// The knots inside [x_1,x_2]: i_1+1,...,i_2, and the end knots if a limit lies in the extrapolation zone.
-	int first = (x_1 < domain[0]) ? i_1 : i_1 + 1;
-	int last  = (x_2 > domain[1]) ? i_2 + 1 : i_2;
+	int first = (x_1 < domain[0] && x_2 >= domain[0]) ? i_1 : i_1 + 1;
+	int last  = (x_2 > domain[1] && x_1 <= domain[1]) ? i_2 + 1 : i_2;
 	if(first > last)
 		return std::max(f_left, f_right);
 	else
